@@ -30,7 +30,7 @@ def resourceObject (r : ResView) (prepath : GoString) (fields : List GoString)
   let selAttrs := r.attrs.vals.filter (fun a => fields.contains a.name)
   let selRels := r.rels.vals.filter (fun rel => fields.contains rel.fromName)
   let want := (relData.get? r.typeName).getD []
-  let attrs := selAttrs.map (fun a => (a.name, encodeVal (r.get a.name)))
+  let attrs := selAttrs.map (fun a => (a.name, encodeAttr (r.get a.name)))
   let rels := selRels.map (fun rel => (rel.fromName, relObject r prepath rel (want.contains rel.fromName)))
   .obj (sortMembers (
     [(K.id, Json.str r.id), (K.type, Json.str r.typeName),
